@@ -549,6 +549,10 @@ def run_degen(case):
             objs.append(o)
     ck = Checker()
     ops = [("join", join), ("meet", meet)] if op == "joinmeet" else [(op, join if op == "join" else meet)]
+    # the method form asks the same question (x.join(y, ...), x.meet(y)): same error, same mask
+    for name, _fn in list(ops):
+        if hasattr(objs[0], name) and not (name == "meet" and len(objs) > 2):
+            ops.append((name + ".method", (lambda nm: (lambda *o: getattr(o[0], nm)(*o[1:])))(name)))
     for name, fn in ops:
         site = f"degen:{cfg}:{name}:{'single' if npos == 0 else 'collection'}"
         try:
